@@ -57,7 +57,7 @@ Proof.
     destruct (rneed (len rl) o >? limi) eqn:E; [lia|].
     destruct H as (r' & Hs & HR'). rewrite Hs.
     destruct (lstepR rl o) as [rl' ret]. simpl in *. f_equal.
-    eapply IH; eauto. destruct o; lia.
+    eapply IH; eauto.
 Qed.
 
 (* what NewState builds is related to the empty stack / empty registry *)
